@@ -1293,6 +1293,21 @@ def r6_own_tags(program, rep):
                    "the masks of those tags select unrelated fields")
 
 
+def _occurs(t, what, children):
+    """``what`` occurs in the term other than as the argument of the call
+    that lists the children (whose elements are (requirements, child))."""
+    if t == what:
+        return True
+    if not isinstance(t, tuple):
+        return False
+    if t and t[0] in ("call", "callv") and len(t) > 1 and \
+            isinstance(t[1], tuple) and t[1][:1] == ("attr",) and \
+            t[1][2] == children:
+        return False
+    return any(_occurs(x, what, children) for x in t
+               if isinstance(x, tuple))
+
+
 def r3_walks(program, rep):
     """The two walks over the field tree each descend with their own
     predicate: the fields *enabled* by a set of values are those of the
@@ -1329,6 +1344,42 @@ def r3_walks(program, rep):
                            name, bad[0][1].func.attr if bad else "",
                            "only potential" if name == "enabled_fields"
                            else "enabled", name.split("_")[0]))
+
+
+
+        # ... and with the whole set of values it was given: whether a field
+        # two levels down is present depends on the values of every level
+        for x in rec:
+            if x[1].func.attr != name:
+                continue
+            args = [plain(a) for a in x[3]]
+            if len(args) != 1 or x[1].keywords:
+                raise AnalysisError("_Tree.%s: the recursive call does not "
+                                    "take one positional argument" % name)
+            a_ = args[0]
+            copy_of = (a_[0] in ("call", "callv") and (
+                (a_[1] == ("global", "dict") and list(a_[2]) == [FV] and
+                 not a_[3]) or
+                (a_[1] == ("attr", FV, "copy") and not a_[2])))
+            if a_ == FV or copy_of:
+                okv = True
+            elif _occurs(a_, FV, children):
+                raise AnalysisError("_Tree.%s: the values handed down are "
+                                    "derived from field_values in a form "
+                                    "this rule does not read" % name)
+            else:
+                okv = False
+            rep.check(okv, "C08-R3", inst, "%s hands the children the field "
+                      "values it was given" % name,
+                      construct="%s recursion values" % name, node=x[1],
+                      positive=True,
+                      fail="%s descends into a child with %s instead of the "
+                           "field values it was given: below that child "
+                           "only the values named there count, so fields "
+                           "three or more levels down are never %s - "
+                           "get_mask / get_value leave their bits out and "
+                           "keys that differ only there collide" % (
+                               name, show(a_)[:60], name.split("_")[0]))
 
 
 def r2_derived_instances(program, rep):
